@@ -279,4 +279,14 @@ def main(replay=None):
                   samples=samples, op_distribution=dist, entries_compared=nentries, nblock_cases=len(ncases), nblock_entries_compared=nblock_entries,
                   numeric_measured=numeric, ops_cases=n_ops, ops_entries_compared=e_ops, ops_assert_outcomes=err_ops,
                   injected_kernel_cases=n_syn, injected_kernel_entries_compared=e_syn, injected_kernel_assert_outcomes=err_syn, ifirst_sentinel_picks_other_mesh=sentinel_cases, traces_validated_against_impl=len(specs) + len(ncases))
+    ck.assumptions += [
+        "wf_indexed (index bijection of the dumped geometry): Section hypothesis of the structural theorems, discharged for every geometry accepted by finalize (default ordering) by C11's bridge coq/Geom/IndexBridgeC10.v",
+        "cavity_wall_indicator_in_kernel: Gauss' law for the abstract D kernel on the cavity wall seen from its partner meshes (hypothesis W_gauss), no shared vertices with the wall; replayed numerically on the real matrices",
+        "inside one N block of the head matrix the model reads S from the matrix as it was at block start (equal to the live reads when no vertex index equals a triangle index)",
+        "headmat_dimension: nb_parameters = #valid vertices + #current triangles + #barrier triangles (C11's count) is a premise",
+        "kernels (analyticS, analyticD3, Integrator) are abstract in the theorems; the ties run them as library code and as injected integer-valued classes compiled into operators.h / assembleHeadMat.cpp / assembleSourceMat.cpp",
+        "invertibility after deflation and |A*inv(A)-I| are measured (SVD, SymMatrix::invert), not proved"]
+    ck.cov["trusted_base"] += ["hand-written Gallina models coq/Geom/{Assembly,AssemblyOps}.v tied by entry-by-entry runs (harness/h_c10.cpp, h_c10s.cpp vs extracted extract/omm)",
+                               "extraction: ExtrOcamlBasic only; OCaml float record of extract/prelude.ml", "C++ harnesses, lib/models.py generators",
+                               "Reals axioms of the Coq standard library (R-instance theorems); MathComp file closed under the global context"]
     return ck.finish()
